@@ -47,6 +47,8 @@ func boundary() []x.Config {
 		{Size: 64 * MiB, LogFlex: 2}, {Size: 64 * MiB, LogFlex: 1}, {Size: 40 * MiB, Resize: f}, {Size: 16 * MiB, ResPct: 1},
 		{Size: 16 * MiB, DirIndex: t}, {Size: 16 * MiB, HugeFile: f}, {Size: 16 * MiB, ProjQuota: t}, {Size: 16 * MiB, LargeInodes: t},
 		{Size: 17*MiB + 513}, {Size: 16 * MiB, BPG: 2048, Csum: t, Resize: f, Journal: f}, {Size: 64*MiB + 3*1024, Resize: f}, {Size: 33 * MiB, Journal: f}, {Size: 600 * MiB}, {Size: 16 * MiB, Resize: f}, {Size: 24 * MiB, Resize: f, Flex: f},
+		// the witness of finding ext4-create-noflex-journal-over-group (fixed by c2ea435: a return is an unlisted failure)
+		{Size: 100 * MiB, BPG: 4096, Flex: f, Resize: f},
 	}
 }
 
